@@ -13,7 +13,7 @@ From EC Require Import Proofs.TqcAssembly Proofs.MsgsFacts.
 From EC Require Import Proofs.ProtocolRefinesAbs Proofs.ProtocolRefinesStep.
 From EC Require Proofs.ProtocolRefinesInv Proofs.ProtocolRefinesMain.
 From EC Require Import Proofs.ProtocolLiveCommitStep Proofs.ProtocolLiveCommitLock Proofs.ProtocolLiveCommit
-  Proofs.ProtocolLiveTimeoutStep Proofs.ProtocolLiveTimeoutLock.
+  Proofs.ProtocolLiveTimeoutStep Proofs.ProtocolLiveTimeoutLock Proofs.ProtocolLiveTidy.
 Import ListNotations.
 Open Scope Z_scope.
 Module RC := ReplicaCaches.
@@ -576,6 +576,7 @@ Section TimeoutRounds.
     (hon L' = true ->
        exists tq p, vnum (tqview tq) = V /\
          justification_verify (p_g P) (p_e P) (p_C P) (JTimeout tq) = Ok tt /\
+         kt hon (g_soup s2) tq /\
          proposal_payload P pay (JTimeout tq) = Some p /\
          In {| m_key := L'; m_sig_ok := true; m_msg := MProposal p (JTimeout tq) |} (g_soup s2) /\
          (forall m p' j' mv', In m (g_soup s2) -> m_msg m = MProposal p' j' -> m_key m = L' -> m_sig_ok m = true ->
@@ -593,11 +594,323 @@ Section TimeoutRounds.
     - intros HL. destruct (HX L' HL) as [(A & B & C & D & tq & E1 & E2) HLq].
       destruct (HLq eq_refl) as (j' & p & Hj' & Hp & Hin). rewrite E1 in Hj'. inversion Hj'; subst j'.
       destruct (payload_some sT L' _ HN HL E1) as [Hver _].
-      exists tq, p. split; [exact E2|]. split; [exact Hver|]. split; [exact Hp|]. split; [exact Hin|].
+      assert (Hkt : kt hon (g_soup sT) tq).
+      { destruct HN as ((_ & (l & Hl) & HF) & _ & _). pose proof (fi_notify _ _ _ HF L' _ HL E1) as Hk0. cbn [kj] in Hk0.
+        apply (ProtocolRefinesInv.kt_mono hon (g_soup sW) (g_soup sT)); [|exact Hk0].
+        rewrite Hl. intros m0 Hm0. apply in_or_app. left. exact Hm0. }
+      exists tq, p. split; [exact E2|]. split; [exact Hver|]. split; [exact Hkt|]. split; [exact Hp|]. split; [exact Hin|].
       intros m p' j' mv' Hin' Em Ek Esg Ejv EV Ever.
       destruct (HPP m p' j' mv' Hin' Em Ejv EV Ever) as (_ & _ & B3 & B4).
       rewrite Ek, E1 in B3. inversion B3; subst j'. rewrite Hp in B4. inversion B4. auto.
     - intros HL m p' j' mv' Hin Em Ejv EV Ever.
       destruct (HPP m p' j' mv' Hin Em Ejv EV Ever) as (B1 & B2 & _). rewrite B2 in B1. congruence.
+  Qed.
+
+  (* ================================================================ *)
+  (* the tidy part: nothing above block n-1 voted or certified         *)
+  (* ================================================================ *)
+  Notation live t k := (n_live (g_node t k)).
+
+  Lemma tidy_step s0 t k i : preach P s0 -> (forall k', hon k' = true -> dview s0 k' <= V) ->
+    NSI P s0 Bs t -> hon k = true -> round_input P (length (g_soup s0)) t i ->
+    (forall q, gq (cfg 0) hon (g_soup s0) q -> hnum (cprop (qmsg q)) < n) ->
+    tidy_node P n (live t k) ->
+    let t' := absorb t k (node_input (cfg k) (g_node t k) i) in
+    r_phase (live t' k) <> PCommit ->
+    tidy_node P n (live t' k) /\
+    forall m, In m (g_soup t') -> In m (g_soup t) \/
+      (m_key m = k /\ ((exists j0, m_msg m = MNewView j0) \/
+                      (exists t0, m_msg m = MTimeout t0 /\ tidy_report P n t0))).
+  Proof.
+    intros Hr0 HB0 HN Hk Hri HT0 HX t' Hph.
+    destruct (input_facts P HP pay fetch Hfirst s0 Hr0 V Bs HB0 Hh1 Hh2 Hle t k i HN Hk Hri)
+      as (s' & es & r & Es & Hs & HN' & Hl' & Ha' & Hsoup & Hinv & Hoth & Hnot).
+    fold t' in HN', Hl', Ha', Hsoup. rewrite Hl' in *.
+    pose proof HN as (HR & Hup & _). pose proof HN' as (HR' & _ & _).
+    destruct (node_certs_good P (g_soup s0) t k HR Hk (Hup k Hk)) as [Hg _].
+    destruct (node_certs_good P (g_soup s0) t' k HR' Hk Ha') as [Hg' _]. rewrite Hl' in Hg'.
+    pose proof (rstep_t_le (cfg k) (live t k) i eq_refl) as Hle0. rewrite Es in Hle0.
+    unfold ReplicaMono.st_of in Hle0. cbn [fst] in Hle0.
+    destruct i as [m| |nn h].
+    - (* a message *)
+      destruct Hri as (idx & Hidx & Hm).
+      destruct HR as (Hrt & (l & Hl) & HF).
+      assert (HinS : In m (g_soup s0)).
+      { rewrite Hl, nth_error_app1 in Hm by exact Hidx. eapply nth_error_In; exact Hm. }
+      assert (HS : Sum (cfg k) hon (g_soup s0) (live t k) (rstep_t (cfg k) (live t k) (IMsg m))).
+      { apply rstep_t_Sum; [reflexivity|apply (fi_certs _ _ _ HF k Hk)|]. split.
+        - apply (fi_soup _ _ _ HF). eapply nth_error_In; exact Hm.
+        - intros Hsg _. unfold ProtocolRefinesStep.sent. destruct m as [mk ms mm]. cbn in *. subst ms. exact HinS. }
+      rewrite Es in HS. destruct HS as (_ & _ & HT).
+      destruct HT as [(Hqe & Hd)|[(qs & c & j0 & _ & _ & Hv)|(qs & rest & Ees & Hqe & (Ehv & _ & Hrest))]].
+      + destruct Hd as [Hd|Hce]; [exfalso; destruct r as [?|[]|?]; cbn in *; try contradiction; discriminate|].
+        split; [apply (tidy_node_keep P HP n s0 _ s' Hr0 HT0 Hg Hg' Hle0 (proj2 (proj2 Hce)) HX)|].
+        intros m0 Hin0. rewrite Hsoup in Hin0. apply in_app_or in Hin0. destruct Hin0 as [Hin0|Hin0]; [left; exact Hin0|].
+        exfalso. apply ProtocolRefinesInv.in_sends_of in Hin0. destruct Hin0 as (x & Hx & _).
+        rewrite Forall_forall in Hqe. exact (Hqe _ Hx).
+      + exfalso. apply Hph. apply Hv.
+      + assert (HX' : tidy_node P n s') by (apply (tidy_node_keep P HP n s0 _ s' Hr0 HT0 Hg Hg' Hle0 Ehv HX)).
+        split; [exact HX'|].
+        intros m0 Hin0. rewrite Hsoup in Hin0. apply in_app_or in Hin0. destruct Hin0 as [Hin0|Hin0]; [left; exact Hin0|].
+        right. apply ProtocolRefinesInv.in_sends_of in Hin0. destruct Hin0 as (x & Hx & ->). cbn [m_key m_msg]. split; [reflexivity|].
+        rewrite Ees in Hx. apply in_app_or in Hx. destruct Hx as [Hx|[Hx|Hx]].
+        * exfalso. rewrite Forall_forall in Hqe. exact (Hqe _ Hx).
+        * discriminate.
+        * rewrite Forall_forall in Hrest. specialize (Hrest _ Hx). cbn [send_spec] in Hrest.
+          destruct x as [? ?|?|t0|j0]; try contradiction; [right|left; eauto].
+          destruct Hrest as [_ ->]. eexists. split; [reflexivity|]. apply tidy_node_report. exact HX'.
+    - (* the timer *)
+      destruct HR as (Hrt & (l & Hl) & HF).
+      assert (HS : Sum (cfg k) hon (g_soup s0) (live t k) (rstep_t (cfg k) (live t k) ITimer)).
+      { apply rstep_t_Sum; [reflexivity|apply (fi_certs _ _ _ HF k Hk)|exact I]. }
+      rewrite Es in HS. destruct HS as (_ & _ & HT).
+      destruct HT as [(Hqe & Hd)|[(qs & c & j0 & _ & _ & Hv)|(qs & rest & Ees & Hqe & (Ehv & _ & Hrest))]].
+      + destruct Hd as [Hd|Hce]; [exfalso; destruct r as [?|[]|?]; cbn in *; try contradiction; discriminate|].
+        split; [apply (tidy_node_keep P HP n s0 _ s' Hr0 HT0 Hg Hg' Hle0 (proj2 (proj2 Hce)) HX)|].
+        intros m0 Hin0. rewrite Hsoup in Hin0. apply in_app_or in Hin0. destruct Hin0 as [Hin0|Hin0]; [left; exact Hin0|].
+        exfalso. apply ProtocolRefinesInv.in_sends_of in Hin0. destruct Hin0 as (x & Hx & _).
+        rewrite Forall_forall in Hqe. exact (Hqe _ Hx).
+      + exfalso. apply Hph. apply Hv.
+      + assert (HX' : tidy_node P n s') by (apply (tidy_node_keep P HP n s0 _ s' Hr0 HT0 Hg Hg' Hle0 Ehv HX)).
+        split; [exact HX'|].
+        intros m0 Hin0. rewrite Hsoup in Hin0. apply in_app_or in Hin0. destruct Hin0 as [Hin0|Hin0]; [left; exact Hin0|].
+        right. apply ProtocolRefinesInv.in_sends_of in Hin0. destruct Hin0 as (x & Hx & ->). cbn [m_key m_msg]. split; [reflexivity|].
+        rewrite Ees in Hx. apply in_app_or in Hx. destruct Hx as [Hx|[Hx|Hx]].
+        * exfalso. rewrite Forall_forall in Hqe. exact (Hqe _ Hx).
+        * discriminate.
+        * rewrite Forall_forall in Hrest. specialize (Hrest _ Hx). cbn [send_spec] in Hrest.
+          destruct x as [? ?|?|t0|j0]; try contradiction; [right|left; eauto].
+          destruct Hrest as [_ ->]. eexists. split; [reflexivity|]. apply tidy_node_report. exact HX'.
+    - (* block sync *)
+      rewrite rstep_t_sync_eq in Es.
+      destruct (r_store_next (live t k) =? nn); inversion Es; subst s' es r.
+      + split; [exact HX|]. intros m0 Hin0. rewrite Hsoup in Hin0. cbn [sends_of flat_map] in Hin0. rewrite app_nil_r in Hin0. left; exact Hin0.
+      + split; [exact HX|]. intros m0 Hin0. rewrite Hsoup in Hin0. cbn [sends_of flat_map] in Hin0. rewrite app_nil_r in Hin0. left; exact Hin0.
+  Qed.
+
+  Hypothesis HT0 : forall q, gq (cfg 0) hon Sg q -> hnum (cprop (qmsg q)) < n.
+  Hypothesis HX : forall k, hon k = true -> tidy_node P n (live s k).
+
+  (* honest commit votes on the network are those of the start; honest timeout votes for view V
+     carry tidy reports *)
+  Definition EG (t : gstate) : Prop :=
+    (forall m c, In m (g_soup t) -> m_sig_ok m = true -> hon (m_key m) = true -> m_msg m = MCommit c -> In m Sg) /\
+    (forall m t0, In m (g_soup t) -> m_sig_ok m = true -> hon (m_key m) = true -> m_msg m = MTimeout t0 ->
+       vnum (tview t0) = V -> tidy_report P n t0).
+
+  Lemma EG_start : EG s.
+  Proof.
+    split; [intros m c Hin _ _ _; exact Hin|].
+    intros m t0 Hin Hsg Hh Em EV0. exfalso. rewrite (eta_msg m Hsg), Em in Hin.
+    pose proof (no_tmsg_in_Sg (m_key m) t0 Hh Hin). lia.
+  Qed.
+
+  Lemma EG_T0 t : EG t -> forall q, gq (cfg 0) hon (g_soup t) q -> hnum (cprop (qmsg q)) < n.
+  Proof.
+    intros [HE _] q [Hv Hk]. apply HT0. split; [exact Hv|].
+    intros h c Hin Hh. exact (HE _ c (Hk h c Hin Hh) eq_refl Hh eq_refl).
+  Qed.
+
+  Lemma EG_step t t' : EG t ->
+    (forall m, In m (g_soup t') -> In m (g_soup t) \/
+       ((forall c, m_msg m <> MCommit c) /\ (forall t0, m_msg m = MTimeout t0 -> tidy_report P n t0))) ->
+    EG t'.
+  Proof.
+    intros [H1 H2] Hnew. split.
+    - intros m c Hin Hsg Hh Em. destruct (Hnew m Hin) as [Hold|[Hc _]]; [eauto|]. exfalso. exact (Hc c Em).
+    - intros m t0 Hin Hsg Hh Em EV0. destruct (Hnew m Hin) as [Hold|[_ Ht]]; [eauto|]. exact (Ht t0 Em).
+  Qed.
+
+  Definition TN (k : Z) (soup : list sgmsg) (nd : node) : Prop := tidy_node P n (n_live nd).
+  Definition andNP (A B : Z -> list sgmsg -> node -> Prop) (k : Z) (soup : list sgmsg) (nd : node) : Prop :=
+    A k soup nd /\ B k soup nd.
+  Lemma andNP_mono A B : mono A -> mono B -> mono (andNP A B).
+  Proof. intros HA HB k soup soup' nd Hi [H1 H2]. split; [eapply HA|eapply HB]; eassumption. Qed.
+  Lemma TN_mono : mono TN.
+  Proof. intros k soup soup' nd _ H. exact H. Qed.
+
+  (* the shapes of the steps of a round *)
+  Lemma deliver1_absorb s0 t k i : NSI P s0 Bs t -> (forall k', hon k' = true -> dview s0 k' <= V) -> hon k = true ->
+    (i < length (g_soup s0))%nat ->
+    exists m, deliver1 P i t k = absorb t k (node_input (cfg k) (g_node t k) (IMsg m)) /\
+              round_input P (length (g_soup s0)) t (IMsg m).
+  Proof.
+    intros HN HB0 Hk Hi. destruct (snapshot_nth P pay fetch s0 V Bs HB0 t i HN Hi) as (m & Hnt & _).
+    exists m. unfold deliver1, live_node. destruct HN as (_ & Hup & _). rewrite Hk, (Hup k Hk), Hnt. cbn [andb].
+    split; [reflexivity|]. exists i. auto.
+  Qed.
+
+  Lemma step_tidy s0 t k i :
+    preach P s0 -> (forall k', hon k' = true -> dview s0 k' <= V) -> NSI P s0 Bs t -> hon k = true ->
+    round_input P (length (g_soup s0)) t i -> EG s0 -> EG t -> lifted TN k t ->
+    let t' := absorb t k (node_input (cfg k) (g_node t k) i) in
+    r_phase (live t' k) <> PCommit -> EG t' /\ lifted TN k t'.
+  Proof.
+    intros Hr0 HB0 HN Hk Hri HE0 HE HT t' Hph.
+    destruct (tidy_step s0 t k i Hr0 HB0 HN Hk Hri (EG_T0 s0 HE0) HT Hph) as [H1 H2].
+    split; [|exact H1]. apply (EG_step t t' HE). intros m Hin. destruct (H2 m Hin) as [Hold|(_ & [(j0 & E)|(t0 & E & Ht)])].
+    - left. exact Hold.
+    - right. split; [intros c; congruence|intros t0; congruence].
+    - right. split; [intros c; congruence|]. intros t1 E1. rewrite E in E1. inversion E1; subst t1. exact Ht.
+  Qed.
+
+  (* adding the tidy part to a step lemma of the rounds *)
+  Lemma enrich (f : gstate -> Z -> gstate) s0 (G : gstate -> Prop) (NP NP' : Z -> list sgmsg -> node -> Prop) t k :
+    preach P s0 -> (forall k', hon k' = true -> dview s0 k' <= V) -> EG s0 -> hon k = true ->
+    (forall t0, G t0 -> NSI P s0 Bs t0) ->
+    (forall t0, lifted NP' k t0 -> r_phase (live t0 k) <> PCommit) ->
+    (G t -> lifted NP k t -> G (f t k) /\ lifted NP' k (f t k)) ->
+    (f t k = t \/
+     (exists p j0, f t k = add_msg t {| m_key := k; m_sig_ok := true; m_msg := MProposal p j0 |}) \/
+     (exists i, f t k = absorb t k (node_input (cfg k) (g_node t k) i) /\ round_input P (length (g_soup s0)) t i)) ->
+    G t /\ EG t -> lifted (andNP NP TN) k t ->
+    (G (f t k) /\ EG (f t k)) /\ lifted (andNP NP' TN) k (f t k).
+  Proof.
+    intros Hr0 HB0 HE0 Hk HGN Hph Hold Hshape [HG HE] [HNP HT].
+    destruct (Hold HG HNP) as [HG' HNP'].
+    destruct Hshape as [E|[(p & j0 & E)|(i & E & Hri)]]; rewrite E in *.
+    - split; [split; assumption|split; assumption].
+    - split; [split; [exact HG'|]|split; [exact HNP'|exact HT]].
+      apply (EG_step t _ HE). intros m Hin. cbn [add_msg g_soup] in Hin. apply in_app_or in Hin.
+      destruct Hin as [Hin|[<-|[]]]; [left; exact Hin|right]. split; intros ?; cbn; discriminate.
+    - destruct (step_tidy s0 t k i Hr0 HB0 (HGN t HG) Hk Hri HE0 HE HT (Hph _ HNP')) as [HE' HT'].
+      split; [split; assumption|split; assumption].
+  Qed.
+
+  Lemma sync1_shape s0 f t k :
+    sync1 P f t k = t \/
+    (exists p j0, sync1 P f t k = add_msg t {| m_key := k; m_sig_ok := true; m_msg := MProposal p j0 |}) \/
+    (exists i, sync1 P f t k = absorb t k (node_input (cfg k) (g_node t k) i) /\ round_input P (length (g_soup s0)) t i).
+  Proof.
+    destruct (sync1_good P f t k) as [E|(q & _ & _ & Hv & Hkn & Hnum & E)]; [left; exact E|right; right].
+    eexists. split; [exact E|]. exists q. auto.
+  Qed.
+  Lemma timer1_shape s0 sr t k :
+    timer1 P sr t k = t \/
+    (exists p j0, timer1 P sr t k = add_msg t {| m_key := k; m_sig_ok := true; m_msg := MProposal p j0 |}) \/
+    (exists i, timer1 P sr t k = absorb t k (node_input (cfg k) (g_node t k) i) /\ round_input P (length (g_soup s0)) t i).
+  Proof. unfold timer1. destruct (_ && _); [right; right; exists ITimer; split; [reflexivity|exact I]|left; reflexivity]. Qed.
+  Lemma propose1_shape s0 t k :
+    propose1 P pay t k = t \/
+    (exists p j0, propose1 P pay t k = add_msg t {| m_key := k; m_sig_ok := true; m_msg := MProposal p j0 |}) \/
+    (exists i, propose1 P pay t k = absorb t k (node_input (cfg k) (g_node t k) i) /\ round_input P (length (g_soup s0)) t i).
+  Proof. destruct (propose1_cases P pay t k) as [E|E]; [left; exact E|right; left; exact E]. Qed.
+  Lemma deliver1_shape s0 t k i : NSI P s0 Bs t -> (forall k', hon k' = true -> dview s0 k' <= V) -> hon k = true ->
+    (i < length (g_soup s0))%nat ->
+    deliver1 P i t k = t \/
+    (exists p j0, deliver1 P i t k = add_msg t {| m_key := k; m_sig_ok := true; m_msg := MProposal p j0 |}) \/
+    (exists i0, deliver1 P i t k = absorb t k (node_input (cfg k) (g_node t k) i0) /\ round_input P (length (g_soup s0)) t i0).
+  Proof. intros HN HB0 Hk Hi. destruct (deliver1_absorb s0 t k i HN HB0 Hk Hi) as (m & E & Hri). right; right. eauto. Qed.
+
+  Lemma ph_W t0 k : lifted NPW k t0 -> r_phase (live t0 k) <> PCommit.
+  Proof. intros (_ & _ & H & _). rewrite H. discriminate. Qed.
+  Lemma ph_T' t0 k : lifted NPT' k t0 -> r_phase (live t0 k) <> PCommit.
+  Proof. intros (_ & _ & H & _). rewrite H. discriminate. Qed.
+
+  (* ---------- round A with the tidy part ---------- *)
+  Definition GAT2 (t : gstate) : Prop := GAT t /\ EG t.
+  Lemma GAT_NSI t0 : GAT t0 -> NSI P s Bs t0.
+  Proof. intros H. apply H. Qed.
+
+  Lemma after_timersW2 : GAT2 sW /\ (forall k, hon k = true -> lifted (andNP NPT' TN) k sW).
+  Proof.
+    assert (HmW : mono (andNP NPW TN)) by (apply andNP_mono; [exact NPW_mono|exact TN_mono]).
+    assert (HmT : mono (andNP NPT' TN)) by (apply andNP_mono; [exact NPT'_mono|exact TN_mono]).
+    destruct (deliver_all_inv P HP GAT2 (fun _ => andNP NPW TN) s (fun _ => HmW)) as [HG1 HN1].
+    { intros i t k Hi Hk HG HNP.
+      apply (enrich (deliver1 P i) s GAT NPW NPW t k Hr tHB_s EG_start Hk GAT_NSI (fun t0 => ph_W t0 k)
+               (deliverW i t k Hi Hk) (deliver1_shape s t k i (GAT_NSI t (proj1 HG)) tHB_s Hk Hi) HG HNP). }
+    { split; [exact GAT_start|exact EG_start]. }
+    { intros k Hk. split; [exact (NPW_start k Hk)|exact (HX k Hk)]. }
+    destruct (keys_phase P HP (propose1 P pay) GAT2 (andNP NPW TN) (andNP NPW TN) (propose1_local P pay) HmW HmW) with (t := deliver_all P s) as [HG2 HN2].
+    { intros t k Hk HG HNP.
+      apply (enrich (propose1 P pay) s GAT NPW NPW t k Hr tHB_s EG_start Hk GAT_NSI (fun t0 => ph_W t0 k)
+               (proposeW t k Hk) (propose1_shape s t k) HG HNP). }
+    { exact HG1. } { exact HN1. }
+    destruct (keys_phase P HP (sync_node P (fetch (propose_all P pay (deliver_all P s))) (length (g_qlog (propose_all P pay (deliver_all P s)))))
+                GAT2 (andNP NPW TN) (andNP NPW TN) (sync_node_local P _ _) HmW HmW) with (t := propose_all P pay (deliver_all P s)) as [HG3 HN3].
+    { intros t k Hk. generalize t. clear t.
+      induction (length (g_qlog (propose_all P pay (deliver_all P s)))) as [|fu IH]; intros t HG HNP; cbn [sync_node]; [auto|].
+      destruct (enrich (sync1 P (fetch (propose_all P pay (deliver_all P s)))) s GAT NPW NPW t k Hr tHB_s EG_start Hk GAT_NSI (fun t0 => ph_W t0 k)
+                  (sync1W _ t k Hk) (sync1_shape s _ t k) HG HNP) as [HG' HNP'].
+      exact (IH _ HG' HNP'). }
+    { exact HG2. } { exact HN2. }
+    unfold sW, timers_all, tW, sync_all.
+    apply (keys_phase P HP (timer1 P s) GAT2 (andNP NPW TN) (andNP NPT' TN) (timer1_local P s) HmW HmT); [|exact HG3|exact HN3].
+    intros t k Hk HG HNP.
+    apply (enrich (timer1 P s) s GAT NPW NPT' t k Hr tHB_s EG_start Hk GAT_NSI (fun t0 => ph_T' t0 k)
+             (timerW t k Hk) (timer1_shape s s t k) HG HNP).
+  Qed.
+
+  (* ---------- round B with the tidy part ---------- *)
+  Lemma sW_EG : EG sW.
+  Proof. destruct after_timersW2 as [[_ H] _]. exact H. Qed.
+  Lemma ph_BT i t0 k : lifted (NPBT i) k t0 -> r_phase (live t0 k) <> PCommit.
+  Proof. intros [(_ & _ & H & _)|(_ & (_ & H & _) & _)]; rewrite H; discriminate. Qed.
+  Lemma ph_X t0 k : lifted NXT k t0 -> r_phase (live t0 k) <> PCommit.
+  Proof. intros (_ & _ & H & _). rewrite H. discriminate. Qed.
+  Lemma ph_XP t0 k : lifted NXTP k t0 -> r_phase (live t0 k) <> PCommit.
+  Proof. intros [H _]. exact (ph_X t0 k H). Qed.
+  Lemma GBT_NSI t0 : GBT t0 -> NSI P sW Bs t0.
+  Proof. intros H. apply H. Qed.
+  Lemma GBT3_NSI t0 : GBT3 t0 -> NSI P sW Bs t0.
+  Proof. intros H. apply H. Qed.
+
+  Lemma after_roundT2 : EG sT /\ (forall k, hon k = true -> lifted TN k sT).
+  Proof.
+    destruct after_timersW2 as [_ HTW].
+    assert (Hm1 : forall i, mono (andNP (NPBT i) TN)) by (intros i; apply andNP_mono; [apply NPBT_mono|exact TN_mono]).
+    assert (HmX : mono (andNP NXT TN)) by (apply andNP_mono; [exact NXT_mono|exact TN_mono]).
+    assert (HmP : mono (andNP NXTP TN)) by (apply andNP_mono; [exact NXTP_mono|exact TN_mono]).
+    destruct (deliver_all_inv P HP (fun t => GBT t /\ EG t) (fun i => andNP (NPBT i) TN) sW Hm1) as [HG1 HN1].
+    { intros i t k Hi Hk HG HNP.
+      apply (enrich (deliver1 P i) sW GBT (NPBT i) (NPBT (S i)) t k sW_reach sW_HB sW_EG Hk GBT_NSI (fun t0 => ph_BT (S i) t0 k)
+               (deliverBT i t k Hi Hk) (deliver1_shape sW t k i (GBT_NSI t (proj1 HG)) sW_HB Hk Hi) HG HNP). }
+    { split; [exact (conj sW_NSI NoProp1_sW)|exact sW_EG]. }
+    { intros k Hk. split; [exact (NPBT_start k Hk)|]. destruct (HTW k Hk) as [_ H]. exact H. }
+    fold tT1 in HG1, HN1.
+    (* after the deliveries every node is in the next view *)
+    destruct after_deliverT as [_ HXall].
+    assert (HN1' : forall k, hon k = true -> lifted (andNP NXT TN) k tT1).
+    { intros k Hk. split; [exact (HXall k Hk)|]. destruct (HN1 k Hk) as [_ H]. exact H. }
+    destruct HG1 as [[HNt HNPt] HEt].
+    destruct (keys_phase P HP (propose1 P pay) (fun t => GBT3 t /\ EG t) (andNP NXT TN) (andNP NXTP TN) (propose1_local P pay) HmX HmP) with (t := tT1) as [HG2 HN2].
+    { intros t k Hk HG HNP.
+      apply (enrich (propose1 P pay) sW GBT3 NXT NXTP t k sW_reach sW_HB sW_EG Hk GBT3_NSI (fun t0 => ph_XP t0 k)
+               (proposeT t k Hk) (propose1_shape sW t k) HG HNP). }
+    { split; [exact (conj HNt (PPT_of_NoProp _ HNPt))|exact HEt]. } { exact HN1'. }
+    destruct (keys_phase P HP (sync_node P (fetch (propose_all P pay tT1)) (length (g_qlog (propose_all P pay tT1))))
+                (fun t => GBT3 t /\ EG t) (andNP NXTP TN) (andNP NXTP TN) (sync_node_local P _ _) HmP HmP) with (t := propose_all P pay tT1) as [HG3 HN3].
+    { intros t k Hk. generalize t. clear t.
+      induction (length (g_qlog (propose_all P pay tT1))) as [|fu IH]; intros t HG HNP; cbn [sync_node]; [auto|].
+      destruct (enrich (sync1 P (fetch (propose_all P pay tT1))) sW GBT3 NXTP NXTP t k sW_reach sW_HB sW_EG Hk GBT3_NSI (fun t0 => ph_XP t0 k)
+                  (sync1T _ t k Hk) (sync1_shape sW _ t k) HG HNP) as [HG' HNP'].
+      exact (IH _ HG' HNP'). }
+    { exact HG2. } { exact HN2. }
+    assert (E : sT = timers_all P sW (sync_all P fetch (propose_all P pay tT1))).
+    { unfold sT, sync_round. cbv zeta.
+      assert (Hrev : revive_all P sW = sW) by (apply revive_all_id; intros k Hk; apply sW_up; exact Hk).
+      rewrite Hrev. reflexivity. }
+    rewrite E. unfold timers_all, sync_all.
+    destruct (keys_phase P HP (timer1 P sW) (fun t => GBT3 t /\ EG t) (andNP NXTP TN) (andNP NXTP TN) (timer1_local P sW) HmP HmP) with
+      (t := fold_left (sync_node P (fetch (propose_all P pay tT1)) (length (g_qlog (propose_all P pay tT1)))) (honest_keys P) (propose_all P pay tT1)) as [HG4 HN4].
+    { intros t k Hk HG HNP.
+      apply (enrich (timer1 P sW) sW GBT3 NXTP NXTP t k sW_reach sW_HB sW_EG Hk GBT3_NSI (fun t0 => ph_XP t0 k)
+               (timerT t k Hk) (timer1_shape sW sW t k) HG HNP). }
+    { exact HG3. } { exact HN3. }
+    split; [apply HG4|]. intros k Hk. apply (HN4 k Hk).
+  Qed.
+
+  (* what the tidy hypotheses add to the result of the two rounds *)
+  Theorem timeout_two_rounds_tidy :
+    let s2 := sync_rounds P pay fetch 2 s in
+    (forall q, gq (cfg 0) hon (g_soup s2) q -> hnum (cprop (qmsg q)) < n) /\
+    (forall k, hon k = true -> tidy_node P n (live s2 k)) /\
+    (forall h m, hon h = true -> In {| m_key := h; m_sig_ok := true; m_msg := MTimeout m |} (g_soup s2) ->
+       vnum (tview m) = V -> tidy_report P n m).
+  Proof.
+    cbv zeta. rewrite two_roundsT. destruct after_roundT2 as [HE HT].
+    split; [exact (EG_T0 sT HE)|]. split; [exact HT|].
+    intros h m Hh Hin EV0. destruct HE as [_ H2]. exact (H2 _ m Hin eq_refl Hh eq_refl EV0).
   Qed.
 End TimeoutRounds.
